@@ -3,7 +3,7 @@ import json
 from .. import gen
 from . import seqprop
 
-GEN = ['JsonUtilGen.v', 'Decisions.v', 'BookGen.v', 'ExecGen.v', 'CacheGen.v']
+GEN = ['JsonUtilGen.v', 'Decisions.v', 'BookGen.v', 'ExecGen.v', 'CacheGen.v', 'OpsGen.v']
 DECISIONS = ['BuildDirs._check_maybe_removed_dir', 'BuildDirs._handle_dir_exists', 'BuildDirs.error_building_file', 'BuildDirs.is_removed_norm_case', 'BuildDirs.started_building_file', 'Cache._assert_no_repeats', 'Cache._use_cached_operation', 'Cache.created_file', 'Cache.created_norm_cased_file', 'CreatedFiles._add_to_subfiles', 'CreatedFiles._remove_from_subfiles', 'CreatedFiles.error_building_file', 'CreatedFiles.finished_building_file', 'CreatedFiles.list_dir', 'CreatedFiles.started_building_file', 'FileBuilder._are_suboperations_cached', 'FileBuilder._build_file_cache_lookup', 'FileBuilder._is_build_file_cached', 'FileBuilder._is_build_file_operation_cached', 'FileBuilder._is_simple_operation_cached', 'FileBuilder._is_subbuild_operation_cached', 'FileBuilder._noneable_file_comparison_result', 'FileBuilder._subbuild_cache_lookup', 'FileBuilder._try_to_reuse_cached_file', 'SimpleOperationExecutor._append_walk', 'SimpleOperationExecutor._assert_exists', 'SimpleOperationExecutor._assert_is_dir', 'SimpleOperationExecutor._file_hash', 'SimpleOperationExecutor._file_metadata', 'SimpleOperationExecutor._is_file_no_read', 'SimpleOperationExecutor._list_dir_superset', 'SimpleOperationExecutor.exists', 'SimpleOperationExecutor.get_size', 'SimpleOperationExecutor.is_dir', 'SimpleOperationExecutor.is_file', 'SimpleOperationExecutor.list_dir', 'SimpleOperationExecutor.read', 'SimpleOperationExecutor.walk']
 SITES = False
 ORDER = False
